@@ -22,7 +22,7 @@ def run (op impl : String) : Ans :=
            (if (connTokens h).isEmpty then [] else ["conn-tokens"]) ++
            (if h.any (fun kv => listedLower.contains (kv.1.map lower) || kv.1.map lower == kTe.map lower) then ["hop", "nt"] else []) ++
            (if h' != h then ["removed"] else [])
-         if canon != "1" || !keysOK h then { model := m, verdict := "skip", tags := "noncanon" :: tags }
+         if canon != "1" || !keysCanon h then { model := m, verdict := "skip", tags := "noncanon" :: tags }
          else
            match impl.splitOn " " with
            | ["ok", hx] =>
